@@ -1,7 +1,7 @@
 (* C02 - an elided amount is inferred as the exact negation of the rest.
    Property theorems only; proofs in Proofs/XactProofs.v.  See Properties_C01.v for the names. *)
-From LedgerV Require Import Base Proofs.GainLossProofs.Prelude Base.Round Model.Amount Model.Xact
-  Proofs.AmountProofs Proofs.XactProofs.
+From LedgerV Require Import Base.Prelude Base.Round Model.Amount Model.Xact
+  Proofs.AmountProofs Proofs.XactProofs Proofs.GainLossProofs.
 Local Open Scope Q_scope.
 
 (* a transaction with exactly one elided amount (index i found by the scan) is completed by
